@@ -134,7 +134,8 @@ type clientWorld struct {
 	cancel                      context.CancelFunc
 	cancelSeq                   int
 	cancelAt                    time.Duration
-	cancelPlan                  int // 0 none,1 after attempts,2 at byte offset in attempt,3 at time
+	cancelEvents                int // plan 4: a callback cancels when this many callback invocations have been made
+	cancelPlan                  int // 0 none,1 after attempts,2 at byte offset in attempt,3 at time,4 from inside a callback
 	cancelAttempt, cancelOffset int
 	cancelTime                  time.Duration
 
@@ -159,10 +160,11 @@ type clientWorld struct {
 	callIdx        int  // index of the call a per-call oracle is looking at
 	b1Unclear      bool // per-call view: an earlier call's connection carried a retry field
 	getBodyFailSeq int
+	cause          error       // the request context was made with WithCancelCause and is cancelled with this cause
 	redirect       *attemptRec // the attempt whose first response was a redirect net/http is about to follow
-	noOnRetry      bool // the Client has no OnRetry: waits are taken from the attempts' instants
-	useDefault     bool // the connection is made with the package-level NewConnection (DefaultClient)
-	lateEdits      bool // the caller changes its Client and request after NewConnection
+	noOnRetry      bool        // the Client has no OnRetry: waits are taken from the attempts' instants
+	useDefault     bool        // the connection is made with the package-level NewConnection (DefaultClient)
+	lateEdits      bool        // the caller changes its Client and request after NewConnection
 
 	connectInvoked, connectReturned int
 	connectErr                      error
@@ -265,7 +267,7 @@ func (w *clientWorld) genClientStream() []byte {
 			sb.WriteString("event: " + types[ch.Intn(len(types), "event type")] + eol)
 		}
 		if (prop == "C12" || ch.Chance(1, 6, "retry sometimes")) && ch.Chance(1, 3, "retry field") {
-			vals := []string{"1", "25", "300", "2000", "60000", "1000000000000", "abc", "", "-5", "+7", "1.5"}
+			vals := []string{"1", "25", "300", "2000", "60000", "1000000000000", "abc", "", "-5", "+7", "1.5", "007", "0000000000000000040", "00000000000000000000000000000300"}
 			sb.WriteString("retry: " + vals[ch.Intn(len(vals), "retry value")] + eol)
 		}
 		if prop == "C13" || ch.Chance(5, 6, "data field") {
@@ -337,11 +339,13 @@ func (w *clientWorld) generate() {
 		}
 	}
 	if prop != "C13" {
-		w.cancelPlan = ch.Weighted([]int{3, 2, 3, 2}, "cancel plan")
+		w.cancelPlan = ch.Weighted([]int{3, 2, 3, 2, 1}, "cancel plan")
 	} else {
-		w.cancelPlan = ch.Weighted([]int{3, 1, 1, 0}, "cancel plan")
+		w.cancelPlan = ch.Weighted([]int{3, 1, 1, 0, 2}, "cancel plan")
 	}
 	switch w.cancelPlan {
+	case 4: // a callback cancels the request when it sees its k-th event (the usual way for an application to stop)
+		w.cancelEvents = ch.Range(1, 4, "cancel from a callback after events")
 	case 1:
 		w.cancelAttempt = ch.Range(1, w.maxAtt, "cancel after attempts")
 	case 2:
@@ -428,7 +432,7 @@ func (rt *clientRT) RoundTrip(req *http.Request) (*http.Response, error) {
 		w.sim.Logf("RoundTrip", "#%d Last-Event-ID=%q body=%q", a.n, a.lastID, a.body)
 	}
 	w.sim.YieldHere("RoundTrip")
-	if err := req.Context().Err(); err != nil {
+	if err := w.transportCtxErr(); err != nil {
 		a.kind = attDialFail
 		a.dialErr = err
 		a.ended = w.sim.Elapsed()
@@ -569,7 +573,7 @@ func (h *hangingBody) Read(p []byte) (int, error) {
 		return 1, nil
 	}
 	h.w.sim.WaitFor("rejected body never ends", func() bool { return h.w.ctx.Err() != nil })
-	return 0, h.w.ctx.Err()
+	return 0, h.w.transportCtxErr()
 }
 
 func (b *clientBody) Read(p []byte) (n int, err error) {
@@ -601,7 +605,7 @@ func (b *clientBody) Read(p []byte) (n int, err error) {
 			a.cancelledAt = a.delivered
 		}
 		a.ended = w.sim.Elapsed()
-		return 0, ctx.Err()
+		return 0, w.transportCtxErr()
 	}
 	if a.delivered >= b.end {
 		if a.endKind == 2 {
@@ -615,7 +619,7 @@ func (b *clientBody) Read(p []byte) (n int, err error) {
 				a.cancelledAt = a.delivered
 			}
 			a.ended = w.sim.Elapsed()
-			return 0, ctx.Err()
+			return 0, w.transportCtxErr()
 		}
 		a.ended = w.sim.Elapsed()
 		return 0, a.endErr
@@ -652,6 +656,18 @@ func (w *clientWorld) doCancel(why string) {
 	w.o.fault("context cancellation " + why)
 	w.sim.Logf("cancel", "%s", why)
 	w.cancel()
+}
+
+// transportCtxErr is what the transport reports once the request context is done: the context's
+// error, or - as net/http does since Go 1.23 for a context cancelled with a cause - the cause.
+func (w *clientWorld) transportCtxErr() error {
+	if err := w.ctx.Err(); err == nil {
+		return nil
+	}
+	if w.cause != nil {
+		return context.Cause(w.ctx)
+	}
+	return w.ctx.Err()
 }
 
 // simDeadlineCtx is a context.Context implementation of the caller's own: done when expire is
@@ -773,6 +789,12 @@ func runClientWorld(rc *RunCtx) *Outcome {
 				}
 				w.ctx, w.cancel = dc, dc.expire
 				o.probe("request context that ends with DeadlineExceeded")
+			} else if rc.Ch.Chance(1, 4, "context cancelled with a cause") {
+				// context.WithCancelCause: ctx.Err() is still context.Canceled, but net/http reports the cause
+				w.cause = newInjected("the application's reason for stopping")
+				ctx, cancel := context.WithCancelCause(context.Background())
+				w.ctx, w.cancel = ctx, func() { cancel(w.cause) }
+				o.probe("request context cancelled with a cause")
 			} else {
 				w.ctx, w.cancel = context.WithCancel(context.Background())
 			}
@@ -983,9 +1005,19 @@ func (w *clientWorld) onEvent(cb *cbRec) sse.EventCallback {
 		cb.seenSeq = append(cb.seenSeq, w.tick())
 		w.dispatched++
 		w.sim.Logf("callback", "cb%d(%s) got {id=%q type=%q data=%q}", cb.id, cb.typ, e.LastEventID, e.Type, e.Data)
+		w.cancelFromCallback()
 		if w.rc.Prop == "C13" {
 			w.sim.YieldHere("callback")
 		}
+	}
+}
+
+// cancelFromCallback (cancel plan 4): the application stops the connection from inside a callback;
+// the event being dispatched still goes to every callback subscribed to it.
+func (w *clientWorld) cancelFromCallback() {
+	if w.cancelPlan == 4 && w.cancelSeq == 0 && w.dispatched >= w.cancelEvents {
+		w.o.probe("request cancelled from inside a callback")
+		w.doCancel("from inside a callback")
 	}
 }
 
@@ -1080,6 +1112,7 @@ func (w *clientWorld) registerObserver(obs *cbRec) {
 		obs.seenEv = append(obs.seenEv, rec.ev)
 		obs.seenSeq = append(obs.seenSeq, w.tick())
 		w.dispatched++
+		defer w.cancelFromCallback()
 		w.sim.Logf("event", "%d attempt #%d {id=%q type=%q data=%q}", rec.idx, a.n, e.LastEventID, e.Type, e.Data)
 	})
 	obs.subReturned = w.tick()
@@ -1513,7 +1546,7 @@ func (w *clientWorld) checkC11() {
 			o.violate("C11", "ctx-error-expected", "the context was cancelled while attempt #%d was being read (%d bytes delivered); Connect returned %v instead of the context's error (%s)", la.n, la.delivered, err, desc())
 			return
 		}
-		if la != nil && la.kind == attDialFail && errors.Is(la.dialErr, context.Canceled) {
+		if la != nil && la.kind == attDialFail && (errors.Is(la.dialErr, context.Canceled) || (w.cause != nil && errors.Is(la.dialErr, w.cause))) {
 			o.violate("C11", "ctx-error-expected", "RoundTrip failed with the context's error; Connect returned %v (%s)", err, desc())
 			return
 		}
